@@ -67,9 +67,9 @@ func driveC08(p *Pool, r *evid.Run) {
 		src, dst string
 		bound    int
 	}
-	plans := []plan{{"small", "small-dirty", 2}, {"mid", "mid-dirty", 1}}
+	plans := []plan{{"small", "small-dirty", 2}, {"mid", "mid-dirty", 1}, {"c19hl", "c19hl-dirty", 1}}
 	if r.Tier == "thorough" {
-		plans = []plan{{"small", "small-dirty", 3}, {"mid", "mid-dirty", 2}, {"v2", "empty", 2}}
+		plans = []plan{{"small", "small-dirty", 3}, {"mid", "mid-dirty", 2}, {"v2", "empty", 2}, {"c19hl", "c19hl-dirty", 2}}
 	}
 	bounds := map[string]int{}
 	// the zero-deviation outcomes of different base policies and capacities must agree too
